@@ -52,6 +52,9 @@ CHECKS = {
     "C17": dict(cat="model_checking", ref="§4 C17", tech="trace validation against a TLA+ non-interference specification (Trace_Debug): Debug text as an uninterpreted function of history / public read position (index, half_used from the API machine ApiImpl), learned and enforced by TLC",
                 text="{:?} and {:#?} of the eight state-hiding types are recorded after every operation of walks from TLC's API state graph and random walks, each under several seeds (or timer scripts); TLC rejects two different texts for one (kind, format, history) or one (kind, format, public read position), so any seed- or state-dependent content in the text is detected without fixing the text itself.",
                 note=TB + "; leakage is detected as dependence on seed/state across the seeds of the corpus (>= 5 per history)"),
+    "C19": dict(cat="model_checking", ref="§4 C19", tech="TLC model checking of the instance machine (Instances.tla: frame property, solo-run results, process-wide JITTER_ROUNDS cache; negative controls with a global and a thread-local cache) + TLC-enumerated interleavings executed on persistent OS threads with background load, each instance validated by Trace_Stream against its solo twin; Send/Sync static assertion compiled separately",
+                text="All interleavings of constructors and outputs of up to three instances over two threads are explored on the model; complete interleavings printed by TLC are executed on real threads (instances moved between persistent workers, unscripted background threads constructing generators of the same kinds from zero seeds) and every instance's stream must equal its solo twin's; a new_with_timer JitterRng must be unaffected by JitterRng::new(); the Send+Sync assertions must compile.",
+                note=TB + "; the sequencer enforces the interleaving (no real data race is attempted: all generator state is owned)"),
 }
 
 NOT_YET = {}
